@@ -5,6 +5,7 @@
 --   ∀ x rest, c.wf x → c.wpanic x = false ∧ c.dec (c.enc x ++ rest) = .ok (x, rest)
 -- (the writer does not panic, the decoded value is equal, exactly the written bytes are consumed, any suffix).
 import WinterProofs.Lemmas.C12Parse
+import WinterProofs.Lemmas.C12Gen
 
 namespace WinterProofs.C12
 open Model Model.Serde WinterProofs.C12L
@@ -32,6 +33,39 @@ theorem vint64_encodedLen (v : Nat) :
 
 example : writeUsize 16383 = [254, 255] ∧ writeUsize 16384 = [4, 0, 2] := by decide
 example : readUsize (writeUsize 72057594037927936 ++ [7]) = .ok (72057594037927936, [7]) := by decide
+
+-- tie T: the integer logic of the size encoding as regenerated from utils/core/src/serde/byte_writer.rs
+-- (`encoded_len`, the word `(value << 1 | 1) << (length - 1)` of `write_usize`) and byte_reader.rs (the length
+-- `trailing_zeros() + 1` and the shift `>> length` of `read_usize`) on this run (Winter/Gen/Serde.lean)
+
+/-- ★ the regenerated pieces equal the model's, for ALL arguments, with their exact no-panic conditions -/
+theorem gen_vint64_pieces (v l b x : Nat) :
+    Gen.Serde.encoded_len v = encodedLen v ∧ Gen.Serde.encoded_len_ok v = true ∧
+    Gen.Serde.write_usize_word v l = ((v * 2 % 18446744073709551616) ||| 1) <<< (l - 1) % 18446744073709551616 ∧
+    (Gen.Serde.write_usize_word_ok v l = true ↔ (1 ≤ l ∧ l - 1 < 64)) ∧
+    Gen.Serde.read_usize_length b = trailingZeros8 b + 1 ∧ Gen.Serde.read_usize_length_ok b = true ∧
+    Gen.Serde.read_usize_value x l = x >>> l ∧ (Gen.Serde.read_usize_value_ok x l = true ↔ l < 64) :=
+  ⟨(C12G.gen_encoded_len_eq v).1, (C12G.gen_encoded_len_eq v).2, (C12G.gen_write_word_eq v l).1,
+    (C12G.gen_write_word_eq v l).2, (C12G.gen_read_length_eq b).1, (C12G.gen_read_length_eq b).2,
+    (C12G.gen_read_value_eq x l).1, (C12G.gen_read_value_eq x l).2⟩
+
+/-- ★ hence the model's `write_usize` / `read_usize` ARE the two methods over the regenerated integer logic
+    (`writeUsizeG`, `readUsizeG`: Winter/Model/SerdeGen.lean), and the round trip holds of those -/
+theorem vint64_roundtrip_gen (v : Nat) (rest : Bytes) (hv : v < 18446744073709551616) :
+    writeUsize v = writeUsizeG v ∧ readUsize = readUsizeG ∧
+    readUsizeG (writeUsizeG v ++ rest) = .ok (v, rest) := by
+  refine ⟨C12G.writeUsize_eq_gen v, C12G.readUsize_eq_gen, ?_⟩
+  rw [← C12G.writeUsize_eq_gen, ← C12G.readUsize_eq_gen]
+  exact readUsize_writeUsize v rest hv
+
+/-- ★ no shift of the regenerated code is out of range on the paths the two methods take -/
+theorem vint64_gen_no_panic (v b x : Nat) :
+    (Gen.Serde.encoded_len v ≠ 9 → Gen.Serde.write_usize_word_ok v (Gen.Serde.encoded_len v) = true) ∧
+    (Gen.Serde.read_usize_length b ≠ 9 →
+      Gen.Serde.read_usize_value_ok x (Gen.Serde.read_usize_length b) = true) :=
+  C12G.gen_vint64_no_panic v b x
+
+example : writeUsizeG 16384 = [4, 0, 2] ∧ readUsizeG [4, 0, 2, 9] = .ok (16384, [9]) := by decide
 
 -- ------------------------------------------------------------------------------------------------
 -- fixed-width integers, composition
